@@ -311,13 +311,13 @@ class dotdict_base( object ):
         if rest is None:
             return super( dotdict_base, self ).pop( mine, *args[1:] )
         try:
-            target		= super( dotdict_base, self ).__getitem__( mine )
+            target		= self.__getitem__( mine ) # as for lookup; 'mine' may be indexed, eg. 'l[0]'
+            if not isinstance( target, dotdict_base ):
+                raise KeyError( 'cannot pop "%s" in "%s" (%r)' % ( rest, mine, target ))
         except KeyError:
             if len( args ) > 1:
                 return args[1] # no such level, and a default was supplied
             raise
-        if not isinstance( target, dotdict_base ):
-            raise KeyError( 'cannot pop "%s" in "%s" (%r)' % ( rest, mine, target ))
         return target.pop( rest, *args[1:] )
 
     def setdefault( self, key, default ):
